@@ -243,6 +243,18 @@ func (p *Program) lookupMethod(t types.Type, m *types.Func) *ssa.Function {
 	return fn
 }
 
+// lookupMethodByName finds an exported method in the method set of t.
+func (p *Program) lookupMethodByName(t types.Type, name string) *ssa.Function {
+	if t == nil {
+		return nil
+	}
+	sel := p.Prog.MethodSets.MethodSet(t).Lookup(nil, name)
+	if sel == nil {
+		return nil
+	}
+	return p.Prog.MethodValue(sel)
+}
+
 type fnMetaT struct {
 	intr Intrinsic
 }
